@@ -158,6 +158,265 @@ def site_checks(ck, sg, kind, x0, x, GeneratorSite):
     return None, lines
 
 
+# ---- stream "neareps": input tensors that miss the site symmetry by LESS than the position cutoff ---------------------------------
+# The cutoff `eps` of GeneratorSite / ExpandAsymmetricUnit / SymmetryConstraints is a tolerance for POSITIONS.  Whatever its value,
+# the tensor stored for a site is the symmetry-allowed part of the input: an input = allowed tensor + symmetry-breaking perturbation
+# of 0.03 / 0.3 / 0.6 / 0.9 eps per element (3 eps as a control), or an ordinary tensor together with a wide user cutoff (1e-3, 1e-2, 2e-2), must
+# come back exactly invariant, as the Uspace combination of the reported parameters, reproduced by the U formulas.
+NEAR_SIZES = (Fraction(3, 100), Fraction(3, 10), Fraction(6, 10), Fraction(9, 10))  # x eps per element; 0.03 eps: a tighter "compliant" threshold would show too
+NEAR_CONTROL = Fraction(3)
+USER_EPS = (1.0e-3, 1.0e-2, 2.0e-2)
+NEAR_TOL = 1e-9  # far below every perturbation used (>= 1.8e-7 per element) and far above double round-off at these magnitudes
+_SKIP = "skip"
+
+
+def _sym6(v):
+    return [[v[0], v[3], v[4]], [v[3], v[1], v[5]], [v[4], v[5], v[2]]]
+
+
+def _maxdiff(A, B):
+    return max(abs(A[a][b] - B[a][b]) for a in range(3) for b in range(3))
+
+
+def _exactT(M):
+    """exact rational value of a float 3x3 array"""
+    return [[Fraction(float(M[a][b])) for b in range(3)] for a in range(3)]
+
+
+def neareps_build(rng, sg, x0, flavour, eps, size):
+    """One input of the stream: {"xyz", "U", "eps", ...} or None when the site cannot carry one (every tensor allowed)."""
+    opos, ocls = oracle_classes(sg, x0, (Fraction(0),) * 3)
+    stab = sorted(ocls[0])
+    rots = [sc.exact_op(sg.symop_list[i])[0] for i in stab]
+    e = Fraction(1, 10 ** 5) if eps is None else Fraction(eps).limit_denominator(10 ** 6)
+    data = {"xyz": [str(v) for v in x0], "eps": eps, "flavour": flavour}
+    if flavour == "ordinary":
+        # everyday displacement magnitudes (~0.005), no relation to the site symmetry
+        for _ in range(20):
+            U = _sym6([Fraction(rng.randrange(2000, 12001), 10 ** 6) for _ in range(3)] + [Fraction(rng.randrange(-3000, 3001), 10 ** 6) for _ in range(3)])
+            if max(_maxdiff(sc.rotT(R, U), U) for R in rots) >= Fraction(1, 10 ** 4):
+                break
+        else:
+            return None
+        data["U"] = [[float(v) for v in r] for r in U]
+        return data
+    # an exactly allowed tensor plus a perturbation of `size` * eps per element that breaks the site symmetry
+    A = group_average(sg, stab, _sym6([Fraction(rng.randrange(4000, 30001), 10 ** 6) for _ in range(3)] + [Fraction(rng.randrange(-3000, 3001), 10 ** 6) for _ in range(3)]))
+    for _ in range(20):
+        D = _sym6([rng.choice([-1, 1]) * size * e * Fraction(rng.randrange(60, 101), 100) for _ in range(6)])
+        if max(_maxdiff(sc.rotT(R, D), D) for R in rots) >= size * e / 4:
+            break
+    else:
+        return None
+    data["U"] = [[float(A[a][b] + D[a][b]) for b in range(3)] for a in range(3)]
+    data["allowed_base"] = [[float(v) for v in r] for r in A]
+    data["perturbation_in_eps"] = [[float(v / e) for v in r] for r in D]
+    return data
+
+
+def _formula_tensor(fm, vals, what):
+    """evaluate a U formula dictionary at exact parameter values; (tensor, None) or (None, problem)"""
+    if not isinstance(fm, dict) or set(fm) != set(USYM):
+        return None, "%s returned %r" % (what, fm)
+    T = [[None] * 3 for _ in range(3)]
+    for s_ in USYM:
+        try:
+            val = sc.eval_linear(sc.parse_linear(fm[s_]), vals)
+        except (ValueError, KeyError) as e:
+            return None, "%s[%s] = %r cannot be evaluated with the reported parameters %r (%s)" % (what, s_, fm[s_], sorted(vals), e)
+        a, b = UIDX[s_]
+        T[a][b] = T[b][a] = val
+    return T, None
+
+
+def neareps_eval(sg, data, GeneratorSite, ExpandAsymmetricUnit, SymmetryConstraints, full_orbit_max=48):
+    """None, _SKIP (with this wide cutoff the code merges distinct images of the site: not a case of this stream) or the problem:
+    every clause is evaluated, the failing ones are listed (the first one leads)."""
+    x0 = [Fraction(v) for v in data["xyz"]]
+    xf = [float(v) for v in x0]
+    Uin = [[float(v) for v in r] for r in data["U"]]
+    eps = data.get("eps")
+    kw = {} if eps is None else {"eps": eps}
+    tol = NEAR_TOL
+    opos, ocls = oracle_classes(sg, x0, (Fraction(0),) * 3)
+    stab = sorted(ocls[0])
+    rots = [(i, sc.exact_op(sg.symop_list[i])[0]) for i in stab]
+    tag = " [input tensor %r, %s]" % (Uin, "default eps" if eps is None else "eps=%r" % eps)
+    fl = lambda T: [[float(v) for v in r] for r in T]  # noqa: E731
+
+    def invariant(T, name):
+        if _maxdiff(T, sc.transpose(T)) > tol:
+            return "%s %r is not symmetric" % (name, fl(T))
+        for i, R in rots:
+            d = float(_maxdiff(sc.rotT(R, T), T))
+            if d > tol:
+                return "%s %r is not invariant under site-symmetry operation %d (changes by %.3g)" % (name, fl(T), i, d)
+        return None
+
+    gs = GeneratorSite(sg, numpy.array(xf), Uij=numpy.array(Uin), **kw)
+    Hidx = sorted(sc.op_indices(sg, gs.invariants))
+    if Hidx != stab or len(gs.eqxyz) != len(opos):
+        if eps is not None:
+            return _SKIP
+        return "site symmetry operations %r, exact stabiliser %r" % (Hidx, stab)
+    Ust = _exactT(gs.Uij)
+    if len(gs.Uparameters) != len(gs.Uspace) or len({n for n, v in gs.Uparameters}) != len(gs.Uparameters) or len(gs.eqUij) != len(gs.eqxyz):
+        return "Uparameters %r for %d Uspace tensors, %d tensors for %d equivalent positions" % (gs.Uparameters, len(gs.Uspace), len(gs.eqUij), len(gs.eqxyz)) + tag
+    pars = [(n, float(v)) for n, v in gs.Uparameters]
+    vals = {n: Fraction(float(v)) for n, v in gs.Uparameters}
+
+    def c_invariant():  # (1) the stored tensor is invariant under every rotation of the site symmetry
+        return invariant(Ust, "stored Uij")
+
+    def c_combination():  # (2) it is the Uspace combination of the reported parameters
+        comb = [[sum(Fraction(float(v)) * Fraction(float(Us[a][b])) for (n, v), Us in zip(gs.Uparameters, gs.Uspace)) for b in range(3)] for a in range(3)]
+        d = float(_maxdiff(comb, Ust))
+        if d > tol:
+            return "stored Uij %r is not the Uspace combination of Uparameters %r, which is %r (off by %.3g)" % (gs.Uij.tolist(), pars, fl(comb), d)
+
+    def c_equivalents():  # (3) equivalents are the generator tensor rotated by ANY operation of the class
+        for j, ops in enumerate(gs.symops):
+            for o in ops:
+                R, _ = sc.exact_op(o)
+                if _maxdiff(sc.rotT(R, Ust), _exactT(gs.eqUij[j])) > tol:
+                    return "eqUij[%d] %r is not the generator tensor %r rotated by operation %d of its class" % (
+                        j, gs.eqUij[j].tolist(), gs.Uij.tolist(), sc.op_indices(sg, [o])[0])
+
+    def c_formulas():  # (4) the U formulas at the reported values reproduce the stored tensors
+        for j, p in enumerate(gs.eqxyz):
+            fm = gs.UFormula(p)
+            T, prob = _formula_tensor(fm, vals, "UFormula of equivalent site %d" % j)
+            if prob:
+                return prob
+            d = float(_maxdiff(T, _exactT(gs.eqUij[j])))
+            if d > tol:
+                return "UFormula of equivalent site %d %r at Uparameters %r gives %r, eqUij[%d] is %r (off by %.3g)" % (
+                    j, fm, pars, fl(T), j, gs.eqUij[j].tolist(), d)
+
+    def c_again():  # (5) storing the stored tensor again returns it unchanged
+        gs2 = GeneratorSite(sg, numpy.array(xf), Uij=numpy.array(gs.Uij), **kw)
+        if _maxdiff(_exactT(gs2.Uij), Ust) > tol:
+            return "the stored tensor %r changes to %r when it is stored again" % (gs.Uij.tolist(), gs2.Uij.tolist())
+
+    eau = ExpandAsymmetricUnit(sg, [numpy.array(xf)], [numpy.array(Uin)], **kw)
+    eU = eau.expandedUijs[0]
+
+    def c_expand():  # (6) ExpandAsymmetricUnit: invariant generator tensor, rotated equivalents
+        if len(eU) != len(gs.eqUij):
+            return "ExpandAsymmetricUnit returns %d tensors, GeneratorSite %d" % (len(eU), len(gs.eqUij))
+        E0 = _exactT(eU[0])
+        prob = invariant(E0, "ExpandAsymmetricUnit.expandedUijs[0][0]")
+        if prob:
+            return prob
+        for j, ops in enumerate(gs.symops):
+            R, _ = sc.exact_op(ops[-1])
+            if _maxdiff(sc.rotT(R, E0), _exactT(eU[j])) > tol:
+                return "ExpandAsymmetricUnit.expandedUijs[0][%d] %r is not the generator tensor %r rotated by operation %d" % (
+                    j, numpy.array(eU[j]).tolist(), numpy.array(eU[0]).tolist(), sc.op_indices(sg, [ops[-1]])[0])
+
+    def constraints(lname, P, UU, cls):  # (7), (8) SymmetryConstraints
+        UU0 = [u.copy() for u in UU]
+        scs = SymmetryConstraints(sg, P, UU, **kw)
+        if sorted(scs.coremap) != [0] or sorted(scs.coremap[0]) != list(range(len(P))):
+            return None if eps is not None else "SymmetryConstraints on %s: coremap %r" % (lname, scs.coremap)
+        S0 = _exactT(scs.Uijs[0])
+        prob = invariant(S0, "SymmetryConstraints(%s).Uijs[0]" % lname)
+        if prob:
+            return prob
+        spars = [(n, float(v)) for n, v in scs.Upars]
+        svals = {n: Fraction(float(v)) for n, v in scs.Upars}
+        if len(svals) != len(scs.Upars):
+            return "SymmetryConstraints on %s: Upars symbols not distinct %r" % (lname, scs.Upars)
+        fms = scs.UFormulas()
+        for i in range(len(P)):
+            Si = _exactT(scs.Uijs[i])
+            T, prob = _formula_tensor(fms[i], svals, "SymmetryConstraints(%s).UFormulas()[%d]" % (lname, i))
+            if prob:
+                return prob
+            d = float(_maxdiff(T, Si))
+            if d > tol:
+                return "SymmetryConstraints on %s: UFormulas()[%d] %r at Upars %r gives %r, Uijs[%d] is %r (off by %.3g)" % (
+                    lname, i, fms[i], spars, fl(T), i, scs.Uijs[i].tolist(), d)
+            R, _ = sc.exact_op(gs.symops[cls[i]][0])
+            if _maxdiff(sc.rotT(R, S0), Si) > tol:
+                return "SymmetryConstraints on %s: Uijs[%d] %r is not the generator tensor %r rotated by operation %d" % (
+                    lname, i, scs.Uijs[i].tolist(), scs.Uijs[0].tolist(), sc.op_indices(sg, [gs.symops[cls[i]][0]])[0])
+            if len(P) > 1 and _maxdiff(Si, _exactT(UU0[i])) > tol:
+                return "SymmetryConstraints on %s changed the already consistent tensor of listed site %d: %r -> %r" % (
+                    lname, i, UU0[i].tolist(), scs.Uijs[i].tolist())
+        if len(P) == 1 and _maxdiff(S0, Ust) > tol:
+            return "SymmetryConstraints.Uijs[0] %r differs from GeneratorSite.Uij %r" % (scs.Uijs[0].tolist(), gs.Uij.tolist())
+
+    def c_constraints_site():
+        return constraints("the site alone", [list(xf)], [numpy.array(Uin)], [0])
+
+    def c_constraints_orbit():
+        if len(eU) != len(gs.eqUij) or not 1 < len(eU) <= full_orbit_max:
+            return None
+        return constraints("the expanded orbit", [list(map(float, p)) for p in eau.expandedpos[0]], [numpy.array(u) for u in eU], list(range(len(eU))))
+
+    probs = []
+    for clause in (c_invariant, c_combination, c_equivalents, c_formulas, c_again, c_expand, c_constraints_site, c_constraints_orbit):
+        try:
+            prob = clause()
+        except Exception as e:  # noqa: BLE001
+            prob = "%s raised %r" % (clause.__name__[2:], e)
+        if prob:
+            probs.append(prob)
+    if not probs:
+        return None
+    return probs[0] + tag + ("".join(" || also: " + p for p in probs[1:]) if len(probs) > 1 else "")
+
+
+def _near_worker(jobs):
+    import random
+
+    out = []
+    for num, xyz, flavour, eps, size, cseed in jobs:
+        sg = _W["sgs"][num]
+        try:
+            data = neareps_build(random.Random(cseed), sg, [Fraction(v) for v in xyz], flavour, eps, Fraction(size))
+            if data is None:
+                out.append((None, None))
+                continue
+            data["size"] = size
+            try:
+                prob = neareps_eval(sg, data, _W["GeneratorSite"], _W["ExpandAsymmetricUnit"], _W["SymmetryConstraints"])
+            except Exception as e:  # noqa: BLE001
+                prob = "evaluation raised %r" % (e,)
+            out.append((data, prob))
+        except Exception as e:  # noqa: BLE001
+            out.append(({"xyz": xyz, "eps": eps, "flavour": flavour, "size": size, "case_seed": cseed}, "building the case raised %r" % (e,)))
+    return out
+
+
+def neareps_jobs(ck, sglist, allstrata):
+    """(setting, site, flavour, eps, size, case seed) of the stream; drawn from a generator of its own (the other streams keep their cases)."""
+    import random
+
+    rng = random.Random(1000003 * ck.seed + 606)
+    jobs = []
+    for sg in sglist:
+        st = allstrata.get(sg.number)
+        if not st:
+            continue
+        special = [s_ for s_ in st if s_["nstab"] > 1 and not s_.get("error")]
+        if not special:
+            continue
+        quick = ck.tier == "quick"
+        nsite = (4 if ck.widen else 2) if quick else len(special)
+        for s_ in rng.sample(special, min(nsite, len(special))):
+            xyz = [str(strata.frac(p)) for p in s_["xyz"]]
+            for size in NEAR_SIZES:
+                jobs.append((sg.number, xyz, "near", None, str(size), rng.randrange(2 ** 31)))
+            if not quick or rng.random() < 0.25:
+                jobs.append((sg.number, xyz, "near", None, str(NEAR_CONTROL), rng.randrange(2 ** 31)))
+            for eps in ([rng.choice(USER_EPS)] if quick else USER_EPS):
+                flavour = "near" if (eps < 5e-3 and rng.random() < 0.5) else "ordinary"
+                jobs.append((sg.number, xyz, flavour, eps, str(rng.choice(NEAR_SIZES)), rng.randrange(2 ** 31)))
+    return jobs
+
+
 _W = {}
 
 
@@ -291,10 +550,52 @@ def run(ck):
             ck.fail("whole:%s" % sg.number, "%s #%s: %s" % (sg.short_name, sg.number, prob[0]),
                     {"kind": "input", "setting": sg.number, "detail": prob[0], "data": prob[1], "stream": "whole"})
     ck.coverage["evaluations"] += nws
+    # near-allowed input tensors / wide user cutoffs through the three classes (see neareps_eval)
+    _W["ExpandAsymmetricUnit"] = ExpandAsymmetricUnit
+    _W["SymmetryConstraints"] = SymmetryConstraints
+    njobs = neareps_jobs(ck, sgs.SpaceGroupList, allstrata)
+    nfams = {}
+    for k_, j in enumerate(njobs):
+        nfams.setdefault(j[0] % 1000, []).append(k_)
+    norder = sorted(nfams.values(), key=len, reverse=True)
+    try:
+        import multiprocessing
+
+        with multiprocessing.get_context("fork").Pool(processes=max(1, min(12, (os.cpu_count() or 2) - 2))) as pool:
+            nparts = pool.map(_near_worker, [[njobs[k_] for k_ in ks] for ks in norder], chunksize=1)
+    except Exception as e:  # noqa: BLE001
+        ck.notes.append("worker pool unavailable (%r): near-eps cases evaluated sequentially" % (e,))
+        nparts = [_near_worker([njobs[k_] for k_ in ks]) for ks in norder]
+    nres = [None] * len(njobs)
+    for ks, part in zip(norder, nparts):
+        for k_, r_ in zip(ks, part):
+            nres[k_] = r_
+    nnear, nskip, nnone = 0, 0, 0
+    near_kinds = {}
+    for (num, xyz, flavour, eps, size, cseed), (data, prob) in zip(njobs, nres):
+        if data is None:
+            nnone += 1
+            continue
+        if prob == _SKIP:
+            nskip += 1
+            continue
+        nnear += 1
+        lab = "%s:%s" % (flavour + (":" + size if flavour == "near" else ""), "default" if eps is None else "%g" % eps)
+        near_kinds[lab] = near_kinds.get(lab, 0) + 1
+        if prob:
+            sg = _W["sgs"][num]
+            ck.fail("neareps:%s:%s" % (num, "default" if eps is None else "%g" % eps),
+                    "%s #%s, site %s: %s" % (sg.short_name, num, [float(Fraction(v)) for v in xyz], prob),
+                    {"kind": "input", "stream": "neareps", "setting": num, "data": data, "detail": prob})
+    ck.coverage["evaluations"] += nnear
+    ck.coverage["near_eps_cases"] = {"evaluated": nnear, "site_without_constraint": nnone, "skipped_images_merged_by_wide_cutoff": nskip,
+                                     "by_input": sorted(near_kinds.items())}
     ck.coverage["distinct_nontrivial"] = len(distinct) + nws
     ck.coverage["rule"] = ("all settings x strata representatives and orbit members (<=6 strata per setting quick) x variants %s x 3 input tensors (2 random symmetric, 1 exactly allowed): "
                            "exact invariance/dimension/isotropy/rotation/formula oracle, Uspace certificate decided by the Lean checker (orthogonal in %d of them), model projection vs stored tensor; "
-                           "%d whole-structure cases; distinct_nontrivial = special sites + whole-structure cases" % (sorted(kinds.items()), northo, nws))
+                           "%d whole-structure cases; %d near-eps cases (2 special sites per setting quick: allowed tensor + symmetry-breaking perturbation of 0.03/0.3/0.6/0.9 eps per element, "
+                           "3 eps control, user eps 1e-3/1e-2/2e-2 with ordinary tensors, through GeneratorSite / ExpandAsymmetricUnit / SymmetryConstraints, tolerance 1e-9); "
+                           "distinct_nontrivial = special sites + whole-structure cases" % (sorted(kinds.items()), northo, nws, nnear))
     ck.coverage["samples"] = [{"driver": lines[i][:300], "model": outs[i][:200] if outs else None} for i in (0, len(lines) // 2) if lines]
     ck.assumptions += ["SVD null space and numpy.around(…, 2) of _findUSpace are certificate-checked per generated site, not proved as algorithms",
                        "the stored tensor is required to be invariant and to fix allowed tensors; it is NOT required to equal the group average (the code projects orthogonally in fractional components)"]
@@ -477,6 +778,16 @@ def replay(path):
     import diffpy.structure.spacegroups as sgs
     from diffpy.structure.symmetryutilities import GeneratorSite
 
+    if r.get("stream") == "neareps":
+        from diffpy.structure.symmetryutilities import ExpandAsymmetricUnit, SymmetryConstraints
+
+        sg = [g for g in sgs.SpaceGroupList if g.number == r["setting"]][0]
+        try:
+            prob = neareps_eval(sg, r["data"], GeneratorSite, ExpandAsymmetricUnit, SymmetryConstraints)
+        except Exception as e:  # noqa: BLE001
+            prob = "evaluation raised %r" % (e,)
+        print("problem:", prob)
+        return 1 if prob and prob != _SKIP else 0
     if r.get("stream") == "whole":
         from diffpy.structure.symmetryutilities import ExpandAsymmetricUnit, SymmetryConstraints
 
